@@ -64,9 +64,12 @@ Ltac alg_ring := intros; vm_compute; lits; lanes_k ltac:(ring).
 (* rational functions: the side conditions of [field] (the code's own denominators) follow from the hypotheses H : d <> k0 *)
 Ltac side_nz := repeat split; let Hc := fresh "Hc" in (intro Hc; match goal with H : _ <> k0 |- _ => apply H; rewrite <- Hc; ring | H : _ <> k0 |- _ => apply H; exact Hc end).
 (* uninterpreted functions (sqrt) of arguments that agree as polynomials *)
-(* arguments of uninterpreted functions that agree as polynomials are made syntactically equal; division is x * /y in any field *)
-Ltac unify_un := repeat match goal with |- context[k_un ?o ?a] => match goal with |- context[k_un o ?b] => lazymatch a with b => fail | _ => replace b with a by ring end end end.
-Ltac ring_div := unify_un; rewrite ?(Fdiv_def Kth); ring.
+(* arguments of uninterpreted functions (sqrt, sin, ...) that agree as polynomials are made syntactically equal and abstracted to variables, innermost
+   first, one function application at a time (nested normalisations: sqrt of an expression that itself contains 1 / sqrt ...); division is x * /y *)
+Ltac no_un a := lazymatch a with context[k_un _ _] => fail | _ => idtac end.
+Ltac layer1 := match goal with |- context[k_un ?o ?a] => no_un a; repeat (match goal with |- context[k_un o ?b] => no_un b; (lazymatch a with b => fail | _ => replace b with a by (rewrite ?(Fdiv_def Kth); ring) end) end); (let r := fresh "r" in set (r := k_un o a) in * ) end.
+Ltac norm_layers := repeat layer1.
+Ltac ring_div := norm_layers; rewrite ?(Fdiv_def Kth); ring.
 Ltac congr_ring := first [ring | ring_div | (progress f_equal; congr_ring)].      (* progress: an unprovable leaf must fail, not loop *)
 Ltac congr_ring_p := congr_ring.
 Ltac alg_congr := intros; vm_compute; lits; lanes_k ltac:(congr_ring).
